@@ -206,12 +206,16 @@ def c16(res):
 def c17(res):
     known = [(r"c17_lines_get", r"lines.get", next((k["text"] for k in known_findings() if k.get("role") == "string-lines-get"), "StringLines::get"))]
     r = kani_part(res, K_C17, known=known)
+    MM.run_b(res)
     finish_k(res, r,
              "one Kani harness per string-view method group (lines.slice exhausted 16 GB and is not in the frozen set): every UTF-8 (bytes view) / ASCII (lines view) string of <= 2 bytes (thorough 3) and every "
              "index in {0..len+1} u {usize::MAX}; result compared with explicit byte-loop references",
              [{"harness": "c17_bytes_view_2", "obligation": "for all s, i, j: bytes.len == |s|; bytes.get(i) = char starting at byte i or None off-boundary/out of range; "
                "bytes.slice(i, j) = s[i..j] iff i <= j <= |s| on boundaries"}],
-             TRUST_K + ["outside: char view and lines.len (std iterator adaptors exceed 16 GB), one-line delegations to std, floats, to_string, IpAddr/Prefix accessors, the name->closure binding"])
+             TRUST_K + ["engine B (tv/builtins_b.py): float built-ins floor/ceil/round/abs/sqrt/is_nan/is_infinite/is_finite of f32 and f64 from the MIR bodies of their registered wrappers "
+                        "against z3's IEEE-754 operations for every bit pattern (pow: argument order only, powf uninterpreted); trusts z3's FP theory, the MIR-slice interpreter and "
+                        "that the JIT calls the registered wrapper (engine T decides the call itself)",
+                        "outside: char view and lines.len (std iterator adaptors exceed 16 GB), String methods delegating to std, to_string, IpAddr/Prefix accessors"])
 
 
 def c20(res):
@@ -267,6 +271,18 @@ def replay(pid, path):
             print(f"VIOLATION property={pid} replay={path}")
             return 1
         return 0
+    if obj.get("engine") == "builtins":
+        T.build()
+        sys.path.insert(0, os.path.join(VERIF, "tv"))
+        import tv as TV, builtins_b
+        again = builtins_b.replay_again(TV.EXTRACT, os.path.join(BUILD, "builtins"), obj["replay"])
+        if again is None:
+            log("replay could not run")
+            return 2
+        if again:
+            print(f"VIOLATION property={pid} replay={path}")
+            return 1
+        return 0
     if obj.get("engine") in ("tv", "mir"):
         import tempfile
         T.build()
@@ -304,7 +320,7 @@ def replay(pid, path):
                 p = e.split()
                 if p[0] == "call":
                     got.append(p[1] + " " + " ".join(p[3:] if p[1] in ("eat", "peek") else p[2:]))
-                elif p[0].startswith(("emit", "pure")):
+                elif p[0].startswith(("emit", "pure", "msub")):
                     got.append(e)
             print("reference trace:", want, "real:", got)
             again = want != got
